@@ -1,4 +1,60 @@
-import ErgoModel.Exec
+/-
+  C08 — ready/blocked mean what the manual says; claim takes the oldest ready task.
+-/
+import ErgoProofs.Lemmas.ReachInv
+import ErgoProofs.Lemmas.Ready
 namespace Ergo
-theorem C08_placeholder : True := trivial
+
+/-- ready ⇔ todo, unclaimed, every task it depends on is done/canceled (or gone), every epic its epic depends on has only
+    done/canceled children -/
+theorem C08_ready_iff (g : Graph) (hwf : WF g) (t : Task) : isReady g t = true ↔ ReadySpec g t :=
+  isReady_iff g hwf t
+
+/-- blocked ⇔ state blocked, or todo + unclaimed + not ready -/
+theorem C08_blocked_iff (g : Graph) (hwf : WF g) (t : Task) : isBlocked g t = true ↔ BlockedSpec g t :=
+  isBlocked_iff g hwf t
+
+/-- a dependency on a pruned id holds nothing back: replay drops every edge at a tombstoned id -/
+theorem C08_pruned_dep_gone (evs : List Event) (g : Graph) (id agent : Id) (ts : Option Time)
+    (hmem : Event.tombstone id agent ts ∈ evs) (h : replay evs = .ok g) : ∀ e ∈ g.deps, e.1 ≠ id ∧ e.2 ≠ id :=
+  (tombstone_gone evs g id agent ts hmem h).2.1
+
+/-- `list --ready` / `claim` range over exactly the ready non-epic items (of the epic given by --epic, if any) -/
+theorem C08_ready_list_exact (g : Graph) (epic : Id) (t : Task) :
+    t ∈ readyTasks g epic ↔ t ∈ g.tasks ∧ t.isEpic = false ∧ isReady g t = true ∧ (epic = "" ∨ t.epicId = epic) :=
+  mem_readyTasks g epic t
+
+/-- `claim` hands out the ready task with the earliest creation time (ties by id), never an epic -/
+theorem C08_claim_takes_oldest (g : Graph) (epic agent : String) (now : Time) (w : Write) (t : Task)
+    (h : secClaimOldest g epic agent now = .ok (w, t)) :
+    t ∈ g.tasks ∧ t.isEpic = false ∧ isReady g t = true ∧ (∀ u ∈ readyTasks g epic, claimLe t u = true) := by
+  unfold secClaimOldest at h
+  cases hr : readyTasks g epic with
+  | nil => simp [hr] at h
+  | cons t' rest =>
+    simp only [hr] at h
+    injection h with h
+    injection h with _ h2
+    subst h2
+    have hm := (mem_readyTasks g epic t').1 (by rw [hr]; simp)
+    have hmin := readyTasks_head_min g epic t' rest hr
+    exact ⟨hm.1, hm.2.1, hm.2.2.1, fun u hu => hmin u (hr ▸ hu)⟩
+
+/-- and says nothing is ready exactly when the ready set is empty -/
+theorem C08_no_ready_iff_empty (g : Graph) (epic agent : String) (now : Time) :
+    secClaimOldest g epic agent now = .error .noReady ↔
+      ∀ t ∈ g.tasks, ¬ (t.isEpic = false ∧ isReady g t = true ∧ (epic = "" ∨ t.epicId = epic)) := by
+  rw [← readyTasks_nil_iff]
+  unfold secClaimOldest
+  cases readyTasks g epic <;> simp
+
+/-- the answers do not depend on the order in which Go's maps are iterated -/
+theorem C08_order_independent (g g' : Graph) (hwf : WF g) (ht : g.tasks.Perm g'.tasks) (hd : g.deps.Perm g'.deps) (epic : Id) :
+    readyTasks g epic = readyTasks g' epic :=
+  readyTasks_perm g g' hwf ht hd epic
+
+/-- every reachable store has unique ids, so the theorems above apply to it -/
+theorem C08_applies_to_reachable (log : List Event) (h : ReachOK log) : ∃ g, replay log = .ok g ∧ WF g := by
+  obtain ⟨g, hr, hinv⟩ := reach_replay log h; exact ⟨g, hr, hinv.ok.wf⟩
+
 end Ergo
